@@ -334,6 +334,19 @@ class Check:
         data = json.load(open(p))
         return [f for f in data.get("findings", []) if f.get("property") == prop and f.get("status") == "open"]
 
+    def known_witness(self, fid, fn, label):
+        """Replay the witness of a (possibly) known finding on the real code.  `fn()` returns a description of the failure,
+        or None when the code no longer fails.  Listed (status open) -> KNOWN-FINDING line; not listed -> a violation."""
+        bad = fn()
+        kf = [k for k in Check.known_findings(self.prop) if k["id"] == fid]
+        if bad and kf:
+            self.kf_lines.append(f"KNOWN-FINDING: property={self.prop} {kf[0]['print']}")
+        elif bad:
+            self.violation(f"bounded-cross-check :: {label}", {"found": True, "kind": "known-witness", "witness": fid, "bad": bad}, True)
+        self.bounded.append({"name": f"witness replay on the real code: {label}", "evaluations": 1, "still_fails": bool(bad),
+                             "failures": 1 if (bad and not kf) else 0})
+        return bad
+
     # -------------------------------------------------------------- replays
     def write_replay(self, name, payload):
         d = os.path.join(ROOT, "replays", self.prop)
